@@ -12,6 +12,8 @@ Tie to the source
 """
 from __future__ import annotations
 
+import copy
+import dataclasses
 import hashlib
 import itertools
 import json
@@ -659,6 +661,20 @@ def gen_tx(rng, mdib, counter):
             tx = {'tx': 'context_update', 'handles': some(existing, 1, 2), 'assoc': rng.choice(['Assoc', 'Dis', 'No'])}
         else:
             tx = {'tx': 'context_new', 'descriptor': rng.choice(ctxd)}
+    elif r < 0.68 and (conds or signals):
+        # write_entity, mostly with adjust_version_counter=False: the report carries the *same* DescriptorVersion
+        # although an indexed attribute changes (an application that manages version counters itself)
+        h = rng.choice(conds + signals)
+        if h in conds:
+            src = some(metrics, 0, 3)
+            if src and rng.random() < 0.2:
+                src.append(src[0])
+            chg = {'Source': src}
+        else:
+            chg = {'ConditionSignaled': rng.choice([*conds, None])}
+        if rng.random() < 0.2 and systems:
+            chg['parent_handle'] = rng.choice(systems)
+        tx = {'tx': 'entity', 'handle': h, 'set': chg, 'adjust': rng.random() < 0.25}
     else:
         steps = []
         for _ in range(rng.randint(1, 3)):
@@ -681,7 +697,7 @@ def gen_tx(rng, mdib, counter):
                 parent = rng.choice(channels) if kind == 'NumericMetricDescriptor' else (rng.choice(systems) if systems else None)
                 if parent is not None:
                     steps.append({'do': 'add', 'kind': kind, 'handle': f'verif.{counter[0]}' if rng.random() < 0.9 else rng.choice(metrics or ['x']),
-                                  'parent': parent, 'with_state': rng.random() < 0.8,
+                                  'parent': parent, 'with_state': rng.random() < 0.8, 'adjust': rng.random() < 0.8,
                                   'set': ({'Source': some(metrics, 0, 2)} if kind == 'AlertConditionDescriptor' else
                                           {'ConditionSignaled': rng.choice([*conds, None])} if kind == 'AlertSignalDescriptor' and conds else {})})
             elif s < 0.95 and added:
@@ -727,6 +743,15 @@ def run_tx(mdib, tx):
                     st.ContextAssociation = pm_types.ContextAssociation(tx['assoc'])
                 if tx['abort']:
                     raise _Abort
+        elif kind == 'entity':
+            entity = mdib.entities.by_handle(tx['handle'])
+            entity.descriptor = copy.deepcopy(entity.descriptor)     # never write to the table's object directly
+            for a, v in tx['set'].items():
+                setattr(entity.descriptor, a, v)
+            with mdib.descriptor_transaction() as tr:
+                tr.write_entity(entity, adjust_version_counter=tx['adjust'])
+                if tx['abort']:
+                    raise _Abort
         elif kind == 'descriptor':
             with mdib.descriptor_transaction() as tr:
                 for s in tx['steps']:
@@ -752,7 +777,7 @@ def run_tx(mdib, tx):
                             dc.Priority = pm_types.AlertConditionPriority.NONE
                         dc.Type = pm_types.CodedValue('5678')
                         st = mdib.data_model.mk_state_container(dc) if s['with_state'] else None
-                        tr.add_descriptor(dc, state_container=st)
+                        tr.add_descriptor(dc, adjust_descriptor_version=s.get('adjust', True), state_container=st)
                     elif s['do'] == 'remove':
                         tr.remove_descriptor(s['handle'])
                 if tx['abort']:
@@ -831,6 +856,79 @@ def run_real_tables_part(ctx):
                 table.remove_object(dup)
 
 
+NS_MSG = 'http://standards.ieee.org/downloads/11073/11073-10207-2017/message'
+NS_DOM = 'http://standards.ieee.org/downloads/11073/11073-10207-2017/participant'
+NS_XSI = 'http://www.w3.org/2001/XMLSchema-instance'
+
+
+def craft_candidates(raw):
+    """[(handle, 'Source' | 'ConditionSignaled')] of the descriptors in the UPDATE parts of a DescriptionModificationReport"""
+    from lxml import etree
+    res = []
+    root = etree.fromstring(raw)
+    for part in root.iter(f'{{{NS_MSG}}}ReportPart'):
+        if part.get('ModificationType') != 'Upt':
+            continue
+        for d in part.findall(f'{{{NS_MSG}}}Descriptor'):
+            typ = (d.get(f'{{{NS_XSI}}}type') or '').split(':')[-1]
+            if typ in ('AlertConditionDescriptor', 'LimitAlertConditionDescriptor'):
+                res.append((d.get('Handle'), 'Source'))
+            elif typ == 'AlertSignalDescriptor':
+                res.append((d.get('Handle'), 'ConditionSignaled'))
+    return res
+
+
+def craft_report(raw, edits):
+    """Same report (same MdibVersion, same DescriptorVersion, same states), indexed attributes of the descriptors in
+    `edits` (handle -> {'Source': [...]} | {'ConditionSignaled': h | None}) replaced."""
+    from lxml import etree
+    root = etree.fromstring(raw)
+    for d in root.iter(f'{{{NS_MSG}}}Descriptor'):
+        e = edits.get(d.get('Handle'))
+        if not e:
+            continue
+        if 'Source' in e:
+            old = d.findall(f'{{{NS_DOM}}}Source')
+            if old:
+                pos = list(d).index(old[0])
+            else:   # schema order: Extension, Type, Source*, CauseInfo*
+                pos = sum(1 for c in d if isinstance(c.tag, str) and etree.QName(c).localname in ('Extension', 'Type'))
+            for c in old:
+                d.remove(c)
+            for k, h in enumerate(e['Source']):
+                el = etree.Element(f'{{{NS_DOM}}}Source')
+                el.text = h
+                d.insert(pos + k, el)
+        if 'ConditionSignaled' in e:
+            if e['ConditionSignaled'] is None:
+                d.attrib.pop('ConditionSignaled', None)
+            else:
+                d.set('ConditionSignaled', e['ConditionSignaled'])
+    return etree.tostring(root, xml_declaration=True, encoding='UTF-8')
+
+
+def gen_crafted(rng, mdib, raw):
+    """a 'crafted' history item for the last DescriptionModificationReport, or None"""
+    from sdc11073.xml_types import pm_qnames as q
+    cands = craft_candidates(raw)
+    if not cands:
+        return None
+    d = mdib.descriptions
+    metrics = [x.Handle for x in (d.NODETYPE.get(q.NumericMetricDescriptor) or [])]
+    conds = [x.Handle for n in ('AlertConditionDescriptor', 'LimitAlertConditionDescriptor')
+             for x in (d.NODETYPE.get(getattr(q, n)) or [])]
+    edits = {}
+    for h, what in cands:
+        if what == 'Source':
+            src = rng.sample(metrics, min(len(metrics), rng.randint(0, 3)))
+            if src and rng.random() < 0.2:
+                src.append(src[0])
+            edits[h] = {'Source': src}
+        else:
+            edits[h] = {'ConditionSignaled': rng.choice([*conds, None])}
+    return {'tx': 'crafted', 'edits': edits}
+
+
 def run_consumer_part(ctx, script=None, path=None):
     """provider transactions -> reports -> consumer (harness/loopback.py); scan oracle on both sides after each report.
     Returns the list of (signature, detail) found (used by replay)."""
@@ -855,33 +953,60 @@ def run_consumer_part(ctx, script=None, path=None):
         rng = ctx.subrng('consumer', os.path.basename(path))
         counter = [0]
         txs = []
-        todo = script if script is not None else range(ctx.n(60, 400))
-        for item in todo:
+        todo = list(script) if script is not None else [None] * ctx.n(60, 400)
+        last_dmr = None         # the last DescriptionModificationReport that was delivered (template for crafted reports)
+
+        def deliver(w, tx, label):
+            try:
+                cons.deliver(w)
+                dres = 'ok'
+            except Exception as ex:  # noqa: BLE001
+                dres = 'err ' + type(ex).__name__
+            ctx.count(f'consumer-report:{label}:{dres}')
+            with cons.mdib.mdib_lock:
+                cp = _mdib_findings(cons.mdib, 'consumer')
+            ctx.case({'loopback': os.path.basename(path), 'n': len(txs), 'report': label, 'v': w.mdib_version,
+                      'crafted': tx.get('edits')}, nontrivial=True,
+                     sample={'tx': tx, 'report': label, 'consumer_table_problems': [p for _, p in cp]}
+                     if (len(txs) == 2 or (tx['tx'] == 'crafted' and not crafted_sampled)) else None)
+            for sig, p in cp:
+                if sig not in {s for s, _ in found}:     # stale entries stay for the rest of the run: report once
+                    found.append((sig, p))
+                    ctx.fail(sig, p, {'kind': 'loopback', 'file': path, 'txs': list(txs)})
+        crafted_sampled = []
+        while todo:
+            item = todo.pop(0)
+            if item is not None and item['tx'] == 'crafted':
+                # a report with the same MdibVersion and the same DescriptorVersion, but changed indexed attributes
+                txs.append(item)
+                if last_dmr is None:
+                    ctx.count('crafted-report:no-template')
+                    continue
+                w2 = dataclasses.replace(last_dmr, raw=craft_report(last_dmr.raw, item['edits']))
+                deliver(w2, item, 'crafted-DescriptionModificationReport')
+                crafted_sampled.append(1)
+                for e in item['edits'].values():
+                    ctx.count('crafted-edit:' + ','.join(sorted(e)))
+                deliver(last_dmr, {'tx': 'redeliver-original'}, 're-delivered-DescriptionModificationReport')   # back in sync
+                continue
             with prov.mdib.mdib_lock:
-                tx = item if script is not None else gen_tx(rng, prov.mdib, counter)
+                tx = item if item is not None else gen_tx(rng, prov.mdib, counter)
             txs.append(tx)
             res = run_tx(prov.mdib, tx)
-            ctx.count(f'loopback-tx:{tx["tx"]}:{res}')
+            ctx.count(f'loopback-tx:{tx["tx"]}:{res}' + (':same-version' if tx.get('adjust') is False else ''))
             pp = _mdib_findings(prov.mdib, 'provider')
             if pp:
                 found.append((pp[0][0], '; '.join(p for _, p in pp[:4])))
                 ctx.fail(found[-1][0], found[-1][1], {'kind': 'loopback', 'file': path, 'txs': list(txs)})
                 break
             for w in prov.take_wire():
-                try:
-                    cons.deliver(w)
-                    dres = 'ok'
-                except Exception as ex:  # noqa: BLE001
-                    dres = 'err ' + type(ex).__name__
-                ctx.count(f'consumer-report:{w.short}:{dres}')
-                with cons.mdib.mdib_lock:
-                    cp = _mdib_findings(cons.mdib, 'consumer')
-                ctx.case({'loopback': os.path.basename(path), 'n': len(txs), 'report': w.short, 'v': w.mdib_version}, nontrivial=True,
-                         sample={'tx': tx, 'report': w.short, 'consumer_table_problems': [p for _, p in cp]} if len(txs) == 2 else None)
-                for sig, p in cp:
-                    if sig not in {s for s, _ in found}:     # stale entries stay for the rest of the run: report once
-                        found.append((sig, p))
-                        ctx.fail(sig, p, {'kind': 'loopback', 'file': path, 'txs': list(txs)})
+                deliver(w, tx, w.short)
+                if w.short == 'DescriptionModificationReport':
+                    last_dmr = w
+                    if script is None and rng.random() < 0.6:
+                        crafted = gen_crafted(rng, cons.mdib, w.raw)
+                        if crafted is not None:
+                            todo.insert(0, crafted)
         for name, mgr in prov.device._subscriptions_managers.items():  # noqa: SLF001
             for p in mk_oracle.table_problems(mgr._subscriptions, f'subscriptions:{name}'):  # noqa: SLF001
                 ctx.fail('lookup-disagrees-with-scan:subscriptions', p, {'kind': 'subscriptions', 'when': 'end of run'})
